@@ -108,6 +108,20 @@ func (c *Ctx) Script(sel map[int]bool) string {
 // known concrete type id, the static answer.
 func (c *Ctx) implementsAxioms() string {
 	var b strings.Builder
+	if c.useHashable {
+		ids := make([]int, 0, len(c.R.typeByID))
+		for id := range c.R.typeByID {
+			ids = append(ids, id)
+		}
+		sort.Ints(ids)
+		for _, id := range ids {
+			ans := "false"
+			if types.Comparable(c.R.typeByID[id]) {
+				ans = "true"
+			}
+			fmt.Fprintf(&b, "(assert (= (hashableT %d) %s))\n", id, ans)
+		}
+	}
 	for _, name := range c.R.ufunOrder {
 		if !strings.HasPrefix(name, "impl_") {
 			continue
@@ -146,10 +160,13 @@ func (c *Ctx) runTop() {
 		st = &State{pc: True, heaps: map[string]T{}}
 	}
 	c.R.Heap(HAlloc, ArraySort("Ref", "Bool"))
-	for _, p := range fn.Params {
+	for i, p := range fn.Params {
 		v := c.fresh("p_"+p.Name(), c.R.SortOf(p.Type()))
 		c.assumeValid(st, v, p.Type())
 		fr.params = append(fr.params, v)
+		if i == 0 && c.Opt.RecvNonNil && fn.Signature.Recv() != nil && v.Sort == "Ref" {
+			c.assume(st, Not(Eq(v, Nil)))
+		}
 	}
 	for _, p := range fn.FreeVars {
 		v := c.fresh("fv_"+p.Name(), c.R.SortOf(p.Type()))
